@@ -82,6 +82,11 @@ func (fr *Frame) callCommon(at ssa.Instruction, cc *ssa.CallCommon, args []*Val,
 // callUnknownFunc: a callback supplied by the caller. Modelled as arbitrary code
 // of the client: it may change everything (`modifies *`) and return anything.
 func (x *VC) callUnknownFunc(fr *Frame, fv ssa.Value, fnv *Val, sig *types.Signature, args []*Val, st *State, reach, pos string) []*Val {
+	if n, ok := fv.Type().(*types.Named); ok && n.Obj().Pkg() != nil && n.Obj().Pkg().Path() == "context" && n.Obj().Name() == "CancelFunc" {
+		// a context.CancelFunc releases the timer of its context: no effect on anything the contracts speak about
+		x.externs["assumed: calling a context.CancelFunc has no effect on modelled state"] = true
+		return nil
+	}
 	x.note("call through function value at %s: arbitrary effect on the heap assumed (modifies *)", pos)
 	pre := st.clone()
 	x.havocAll(st)
